@@ -15,6 +15,7 @@ import (
 	goheader "github.com/celestiaorg/go-header"
 
 	"github.com/libp2p/go-libp2p/core/crypto"
+	cryptopb "github.com/libp2p/go-libp2p/core/crypto/pb"
 
 	"verifharness/bm"
 	"verifharness/hx"
@@ -140,13 +141,18 @@ func (w *World) drain() (string, []block.NewHeaderEvent, []block.NewDataEvent) {
 	return strings.Join(evs, ","), hs, ds
 }
 
-// Oracles computes, with the real crypto, what the model takes as parameters.
-func Oracles(b []byte) (keyok, hsig, dsig bool) {
+// Oracles computes, with the real crypto, what the model takes as parameters. kaddr is types.KeyAddress of the
+// carried key and is reported only when that key is NOT an Ed25519 key (the model computes the address of Ed25519
+// keys itself from the bytes, so the comparison checks that computation too).
+func Oracles(b []byte) (keyok, hsig, dsig bool, kaddr []byte) {
 	var sh types.SignedHeader
 	if err := sh.UnmarshalBinary(b); err == nil && sh.Signer.PubKey != nil {
 		keyok = true
 		if pl, err := sh.Header.MarshalBinary(); err == nil {
 			hsig, _ = sh.Signer.PubKey.Verify(pl, sh.Signature)
+		}
+		if sh.Signer.PubKey.Type() != cryptopb.KeyType_Ed25519 {
+			kaddr = types.KeyAddress(sh.Signer.PubKey)
 		}
 	}
 	var sd types.SignedData
@@ -154,6 +160,9 @@ func Oracles(b []byte) (keyok, hsig, dsig bool) {
 		keyok = true
 		if pl, err := sd.Data.MarshalBinary(); err == nil {
 			dsig, _ = sd.Signer.PubKey.Verify(pl, sd.Signature)
+		}
+		if sd.Signer.PubKey.Type() != cryptopb.KeyType_Ed25519 {
+			kaddr = types.KeyAddress(sd.Signer.PubKey)
 		}
 	}
 	return
@@ -547,20 +556,27 @@ func (w *World) checkAdmission(hs []block.NewHeaderEvent, ds []block.NewDataEven
 	for _, e := range ds {
 		_ = e // data events carry no signer; the signed blob is checked below through the marks
 	}
-	// a header is marked DA-included only on the strength of a blob that was admitted (today: self-consistent under the
-	// proposer's address); a mark for a hash of which only unsigned / garbage-signed copies were seen is a forgery
+	// a header is marked DA-included only on the strength of a blob really signed with the proposer's key (decided
+	// here with the harness's own comparison of keys and the real ed25519 verification, not with the code under test)
 	for h := range w.env.M.HeaderCache().VerifDAIncluded() {
 		if w.genuine[strings.ToLower(h)] {
 			continue
 		}
-		admitted := false
+		foreign := false
 		for _, p := range w.placedAndGiven {
 			var sh types.SignedHeader
-			if err := sh.UnmarshalBinary(p); err == nil && strings.EqualFold(sh.Hash().String(), h) && sh.ValidateBasic() == nil {
-				admitted = true
+			if err := sh.UnmarshalBinary(p); err == nil && strings.EqualFold(sh.Hash().String(), h) && sh.Signer.PubKey != nil &&
+				!sh.Signer.PubKey.Equals(pub) && string(sh.ProposerAddress) == string(w.env.Gen.ProposerAddress) {
+				if pl, err := sh.Header.MarshalBinary(); err == nil {
+					if ok, _ := sh.Signer.PubKey.Verify(pl, sh.Signature); ok {
+						foreign = true
+					}
+				}
 			}
 		}
-		if !admitted {
+		if foreign {
+			c.Report("C03/da-header/accepted-under-proposer-address-with-foreign-key", "marked DA-included: header hash "+h)
+		} else {
 			c.Report("C03/da-header/marked-da-included-without-a-validly-signed-blob", "header hash "+h)
 		}
 	}
